@@ -23,11 +23,12 @@ TRUSTED = ["model: lean/Srctools/Model/C13.lean (hand-written from vpk.py; FileI
            "and by the constants/format strings regenerated from vpk.py (Gen/Vpk.lean)",
            "CRC-32 is a parameter of the model; the theorems hold for every function; the driver uses its own table-driven CRC-32 "
            "(compared with zlib through every digest of the correspondence)"]
-NOT_MODELLED = ["contents of the directory file after struct.error inside write_dirfile (needs an archive index >= 65536 or >= 4 GiB of data)",
-                "relative_to/root argument of new_file/add_file, add_folder, extract_all, script_write",
+NOT_MODELLED = ["contents of the directory file after struct.error inside write_dirfile (needs an archive index >= 65536 or >= 4 GiB of data; excluded by C13_fits_of_size)",
+                "relative_to/root argument of new_file/add_file, add_folder, extract_all (loops over add_file/read with os.walk, os.path.relpath, os.makedirs: covered by the direct test _folder_property, not by the Lean model); script_write",
                 "several VPK objects / stale FileInfo objects alive at once; version-2 archives are read (header skipped) but never written",
                 "os.path functions on non-POSIX platforms"]
-ASSUMPTIONS = ["zlib.crc32(b, zlib.crc32(a)) == zlib.crc32(a + b) (verify() continues the checksum over preload and archive part)",
+ASSUMPTIONS = ["zlib.crc32 returns values below 2**32 (hypothesis hcrc of C13_fits_of_size / C13_refine_sized)",
+               "zlib.crc32(b, zlib.crc32(a)) == zlib.crc32(a + b) (verify() continues the checksum over preload and archive part)",
                "files behave as byte arrays: 'ab' append returns the old length as offset, seek+read returns the slice (short at EOF)",
                "no other process touches the folder"]
 LEVEL_TEXT = ("Lean theorems about the executable model of vpk.py, for an arbitrary checksum function: C13_dir (load_dirfile o write_dirfile gives back "
@@ -38,15 +39,20 @@ LEVEL_TEXT = ("Lean theorems about the executable model of vpk.py, for an arbitr
               "history of open r/w/a, new_file, add_file, write, del, write_dirfile, contains on directory and single-file archives the "
               "per-operation results, the listing and every read() equal those of the specification name -> bytes, and verify_all is true - "
               "after every prefix, hence after every reopen), C13_names (string, 2-tuple and 3-tuple spellings give the same triple), "
-              "C13_readonly (mode r: every mutator is an error and neither the handle nor the disk changes), C13_gen_ok (constants, struct "
+              "C13_readonly (mode r: every mutator is an error and neither the handle nor the disk changes), C13_fits_of_size / C13_refine_sized "
+              "(the no-struct.error hypothesis is derived from a decidable size budget of the history, so the refinement holds under static "
+              "hypotheses only), C13_verify_all_iff (verify_all is false exactly when some readable file's checksum differs from the stored "
+              "one), C13_dir_v2 (version-2 headers are read with the same tree), C13_gen_ok (constants, struct "
               "layouts and the shape of FileInfo.write extracted from the current source are the model's). Witness theorems show the excluded "
               "classes are necessary. The model is tied to the current source by a differential run on operation histories in real temp "
               "folders (results, listings, read digests, verify, digests of every file on disk), by histories continued on damaged "
               "directory files, and by an independent decode of produced directory files by the model.")
 LEVEL_NOTE = ("Trusted: Lean kernel + propext/Classical.choice/Quot.sound; tools/gen_vpk.py; the harness; zlib/CPython/OS file semantics "
               "(assumptions listed in the evidence). C13_refine carries explicit decidable hypotheses: opOK (name parts contain no NUL and are "
-              "not a single space; archive indexes differ from 0x7fff - the three open known findings) and runFits (no write_dirfile fails "
-              "with struct.error: fields fit 16/32 bits). Four genuine defects were found by the search and fixed in /repo (see known_findings.d/C13.json).")
+              "not a single space; archive indexes differ from 0x7fff - open known findings) and runFits (no write_dirfile fails "
+              "with struct.error); C13_refine_sized replaces runFits by idxSmall and histCost < 2^32 - 1 for a checksum with 32-bit values. "
+              "add_folder / extract_all / root= are not in the Lean model (os.walk, relpath, host folder tree) and are covered by a direct "
+              "round-trip test on the implementation in every run. Four genuine defects were found by the search and fixed in /repo (see known_findings.d/C13.json).")
 TECHNIQUE = "Lean 4: simulation proof (invariant + refinement to a finite map) over arbitrary operation lists, parser/printer inverse by induction; differential correspondence on real temp folders; independent model decode of produced bytes"
 DESIGN_REF = "DESIGN.md section 6, C13"
 
